@@ -33,14 +33,29 @@
         tests on the real code);
       - [C13_gated_never_called]: every field definition GetField hands out exists unchanged in
         the reduced schema, so a resolver of a deleted element is never invoked;
-      - [C13_feature_validate_eq_partial], [C13_feature_exec_eq_partial]: the instances for the
-        transcribed validator and executor — *partial*: transcribed for chain documents (one
-        selection per selection set) only; the complete validator / executor models belong to
-        C04 / C01 and would be instantiated through [C13_noninterference];
-      - [C13_feature_validate_eq_sets_partial], [C13_feature_exec_eq_sets_partial],
-        [C13_set_consumers_disciplined]: the same for the transcription of validator and executor on
-        selection sets with aliases, inline and named fragments (still partial: no field merging,
-        arguments, variables, directives);
+      - [C13_feature_validate_eq]: validation of EVERY document (arguments, variables, directives,
+        value literals, equal response keys and the field-merging rule included) has the same
+        verdict on (S, F) and on the erased schema — stated on C04's complete validator model
+        ([validate_model repaired]), proved from its definitions ([C13_C04_validate_eq] and its parts);
+      - [C13_feature_exec_eq]: execution of every request (operation selection, variable coercion,
+        arguments, directives, fragments, merging, null propagation) returns the same — stated on
+        C01's complete executor model ([ArgModel.run_request fixed]), to which the request's feature
+        set is presented as the F-view of the schema ([C13_C01_view_eq], [C13_C01_run_request_eq]);
+      - [C13_feature_introspect_eq]: every introspection lookup answers the same;
+      - [C13_chain_validate_eq], [C13_chain_exec_eq], [C13_selection_set_validate_eq],
+        [C13_selection_set_exec_eq], [C13_chain_consumers_disciplined],
+        [C13_set_consumers_disciplined], [C13_selection_set_fuel_suffices]: the same equations for
+        this property's own transcriptions of validator and executor as programs over the lookups
+        (chain documents; selection sets with aliases, inline and named fragments, equal response
+        keys) — complete statements about those programs, which never forge a type pointer and
+        never run out of fuel; they are what the correspondence check runs against the real code on
+        every case;
+      - [C13_feature_subscription_eq_partial]: a subscription (subscribe once, every event executes
+        the selection set) — *partial*: proved for the transcribed program [ssub_prog] only; the
+        per-event execution of arbitrary documents is covered by [C13_feature_exec_eq] (operation
+        kind subscription), the SUBSCRIBE step (one root field, GetField under the connection's
+        features, the resolver call that yields the source stream) for documents with arguments,
+        variables or directives is in no complete model (C01's model has no source streams);
       - [C13_reachable_fuel_suffices], [C13_erase_physical_registry],
         [C13_exclusion_means_still_reached]: what schema.New registers is the least closed set
         containing the roots (the fuel of [reachable] always suffices);
@@ -116,18 +131,16 @@ Theorem C13_gated_never_called : forall (A : Type) (p : prog A) S F t f fd,
   exists x, lookup (erase S F) t = Some x /\ assoc f (fields_of x) = Some fd.
 Proof. exact @gated_never_called. Qed.
 
-(** feature_validate_eq / feature_exec_eq for the transcribed validator and executor — partial:
-    chain documents.  Full statement: for every document d,
-      ParseAndValidate(d, S, F) = ParseAndValidate(d, erase S F, all)  and
-      Execute(d, S, F) = Execute(d, erase S F, all);
-    missing: the transcription of validator and executor for arbitrary documents (C04 / C01),
-    to which [C13_noninterference] then applies verbatim. *)
-Theorem C13_feature_validate_eq_partial : forall S F G c,
+(** the equations for this property's own transcription of validator and executor on chain
+    documents (one selection per selection set), as programs over the lookups: complete statements
+    about those programs (the statements for every document are [C13_feature_validate_eq] and
+    [C13_feature_exec_eq] below) *)
+Theorem C13_chain_validate_eq : forall S F G c,
   schema_ok S = true -> subset F G = true ->
   run fixed S F [] (chain_validate c) = run fixed (erase S F) G [] (chain_validate c).
 Proof. exact (fun S F G c => noninterference (chain_validate c) S F G). Qed.
 
-Theorem C13_feature_exec_eq_partial : forall S F G c,
+Theorem C13_chain_exec_eq : forall S F G c,
   schema_ok S = true -> subset F G = true ->
   run fixed S F [] (chain_prog c) = run fixed (erase S F) G [] (chain_prog c).
 Proof. exact (fun S F G c => noninterference (chain_prog c) S F G). Qed.
@@ -145,16 +158,16 @@ Proof. exact (fun fx S F c => conj (chain_validate_disciplined fx S F c) (chain_
     without type condition, named fragments spread any number of times; validator: field lookup,
     leaf / composite subselection rule, type conditions, spread possibility against the scope
     (getPossibleTypes); executor: collectFields with visitedFragments and doesFragmentTypeApply,
-    GetField, abstract-type resolution, completion with null propagation — for every fuel.
-    Still partial with respect to the full statement above: the field-merging rule (and merged
-    selection sets of equal response keys), arguments, variables, directives, mutations are not
-    transcribed (C04 / C01); [C13_noninterference] applies to them verbatim once they are. *)
-Theorem C13_feature_validate_eq_sets_partial : forall S F G d,
+    GetField, grouping of equal response keys and merged selection sets, abstract-type resolution,
+    completion with null propagation — for every fuel.  Complete statements about these programs;
+    arguments, variables, directives and the field-merging RULE are not part of them (they are part
+    of C04's / C01's models: [C13_feature_validate_eq], [C13_feature_exec_eq]). *)
+Theorem C13_selection_set_validate_eq : forall S F G d,
   schema_ok S = true -> subset F G = true ->
   run fixed S F [] (sdoc_validate d) = run fixed (erase S F) G [] (sdoc_validate d).
 Proof. exact sets_validate_eq. Qed.
 
-Theorem C13_feature_exec_eq_sets_partial : forall S F G fuel d,
+Theorem C13_selection_set_exec_eq : forall S F G fuel d,
   schema_ok S = true -> subset F G = true ->
   run fixed S F [] (sdoc_prog fuel d) = run fixed (erase S F) G [] (sdoc_prog fuel d).
 Proof. exact sets_exec_eq. Qed.
@@ -171,7 +184,7 @@ Proof. exact (fun fx S F fuel d => conj (sdoc_validate_disciplined fx S F d) (sd
     nests at most n levels of fields, inline fragments and expansions of named fragments (such an n
     exists exactly when no fragment below the operation spreads itself — the validator's cycle
     rule); then no run with at least n + 2 units of fuel ends in "out of fuel" ([Some None]), on
-    any schema, feature set and repair state.  Together with [C13_feature_exec_eq_sets_partial]:
+    any schema, feature set and repair state.  Together with [C13_selection_set_exec_eq]:
     the equation is never the vacuous "out of fuel = out of fuel" for such documents.  The
     correspondence check evaluates [fitsb] with n = sdoc_fuel d - 2 on every case. *)
 Theorem C13_selection_set_fuel_suffices : forall fx S F d n fuel,
@@ -180,8 +193,14 @@ Theorem C13_selection_set_fuel_suffices : forall fx S F d n fuel,
 Proof. exact sdoc_fuel_suffices. Qed.
 
 (** a subscription served over a WebSocket connection (subscribe once, then every event of the
-    source stream executes the selection set on the subscription type), same transcription, same
-    limits *)
+    source stream executes the selection set on the subscription type) — PARTIAL.
+    Full statement: for every subscription document (arguments, variables, directives included),
+    Subscribe and every executeSubscriptionEvent answer the same on (S, F) and on the erased schema.
+    Proved: for the transcribed program [ssub_prog] (selection sets as above).  The per-event
+    execution of arbitrary documents is [C13_feature_exec_eq] with operation kind subscription.
+    Missing: the subscribe step (exactly one root field, GetField under the connection's features,
+    the resolver call yielding the source stream) for documents beyond the transcription — C01's
+    model has no source streams. *)
 Theorem C13_feature_subscription_eq_partial : forall S F G fuel events d,
   schema_ok S = true -> subset F G = true ->
   run fixed S F [] (ssub_prog fuel events d) = run fixed (erase S F) G [] (ssub_prog fuel events d).
@@ -347,6 +366,37 @@ Proof.
            FeaturesExe.exe_view_run_request leaf inp adefs dt S F G Hok HFG M R opname raw fuel W).
 Qed.
 
+(** ** the property's validation and execution clauses at full strength, through the compositions
+
+    feature_validate_eq: ParseAndValidate(d, S, F) = ParseAndValidate(d, erase(S, F), G) for EVERY
+    document d, on C04's complete model of the repaired validator (all rule groups, the primary /
+    secondary filter, panics and fuel included in the compared outcome).  [vok]: the feature rules
+    of schema.New in C04's vocabulary, evaluated by the check on every schema the real schema.New
+    accepted; [order_ok pi]: Go's map iteration order is some permutation. *)
+Theorem C13_feature_validate_eq : forall (S : Vld.Ast.schema) (F G : Vld.Ast.features) pi (D : Vld.Ast.document),
+  FeaturesVld.vok S = true -> Vld.Ast.subset F G = true -> ProofsCommon.order_ok pi ->
+  ValidatorModel.validate_model ValidatorModel.repaired pi (FeaturesVld.verase S F) G D
+  = ValidatorModel.validate_model ValidatorModel.repaired pi S F D.
+Proof.
+  exact (fun S F G pi D Hok HFG Hpi =>
+           FeaturesVldRules.validate_eq_repaired S F G pi ValidatorModel.repaired D Hok HFG Hpi eq_refl).
+Qed.
+
+(** feature_exec_eq: Execute(request, S, F) = Execute(request, erase(S, F), G) for EVERY request —
+    operation selection, variable coercion, arguments, @skip / @include, fragments, equal response
+    keys, abstract types, null propagation, errors with paths and locations — on C01's complete
+    model of the repaired executor, the request's feature set being presented to it as the F-view
+    of the schema ([FeaturesExe.view]; the check runs this model on the F-view against the real
+    executor under Request.Features for every valid selection-set document). *)
+Theorem C13_feature_exec_eq : forall leaf inp adefs dt S F G R opname raw fuel W,
+  schema_ok S = true -> subset F G = true ->
+  ArgModel.run_request ArgModel.fixed (FeaturesExe.view leaf inp adefs dt (erase S F) G) R opname raw fuel W
+  = ArgModel.run_request ArgModel.fixed (FeaturesExe.view leaf inp adefs dt S F) R opname raw fuel W.
+Proof.
+  exact (fun leaf inp adefs dt S F G R opname raw fuel W Hok HFG =>
+           FeaturesExe.exe_view_run_request leaf inp adefs dt S F G Hok HFG ArgModel.fixed R opname raw fuel W).
+Qed.
+
 (** the reference exists: the reduced schema is accepted by schema.New *)
 Theorem C13_erase_schema_ok : forall S F, schema_ok S = true -> schema_ok (erase S F) = true.
 Proof. exact erase_schema_ok. Qed.
@@ -470,11 +520,11 @@ Print Assumptions C13_feature_introspect_eq.
 Print Assumptions C13_noninterference.
 Print Assumptions C13_noninterference_all_features.
 Print Assumptions C13_gated_never_called.
-Print Assumptions C13_feature_validate_eq_partial.
-Print Assumptions C13_feature_exec_eq_partial.
+Print Assumptions C13_chain_validate_eq.
+Print Assumptions C13_chain_exec_eq.
 Print Assumptions C13_chain_consumers_disciplined.
-Print Assumptions C13_feature_validate_eq_sets_partial.
-Print Assumptions C13_feature_exec_eq_sets_partial.
+Print Assumptions C13_selection_set_validate_eq.
+Print Assumptions C13_selection_set_exec_eq.
 Print Assumptions C13_set_consumers_disciplined.
 Print Assumptions C13_selection_set_fuel_suffices.
 Print Assumptions C13_feature_subscription_eq_partial.
@@ -491,6 +541,8 @@ Print Assumptions C13_C04_validate_eq.
 Print Assumptions C13_C04_validate_eq_no_gated_impls.
 Print Assumptions C13_C01_view_eq.
 Print Assumptions C13_C01_run_request_eq.
+Print Assumptions C13_feature_validate_eq.
+Print Assumptions C13_feature_exec_eq.
 Print Assumptions C13_C04_spread_rule_refuted_before_fix.
 Print Assumptions C13_C04_spread_rule_after_fix.
 Print Assumptions C13_erase_schema_ok.
